@@ -11,7 +11,10 @@
      retention / delete            : A with any subset of the doomed runs already gone
    and on that state the queries must answer as C06 demands, with two sharpenings that only matter
    after a crash: a newest run that has no status yet (its file was created, nothing written) must
-   neither make the latest query fail nor take the place of an acknowledged run in recent(n).   *)
+   neither make the latest query fail nor take the place of an acknowledged run in recent(n).
+   When the record has `after` operations, a fresh process performed them on the surviving store and asked again (ans2):
+   the second answers must be those of the same candidate state with `after` applied to it (the store goes on recording,
+   and what it records after the crash is not hidden by the debris of the crash).                                      *)
 EXTENDS Integers, Sequences, FiniteSets, TLC, Json
 
 CONSTANTS TraceFile, TodayFrom
@@ -65,18 +68,29 @@ RECURSIVE TopOn(_, _, _)
 TopOn(s, S, n) == IF n = 0 \/ S = {} THEN <<>> ELSE LET x == NewestOf(s, S) IN <<LastOf(s, x)>> \o TopOn(s, S \ {x}, n - 1)
 RecentOn(s, d, n) == TopOn(s, WithStatus(s, d), n)
 
-DAGsOf(r) == DOMAIN r.ans
-FindOK(s, r)   == \A d \in DAGsOf(r) : \A x \in DOMAIN r.ans[d].find : r.ans[d].find[x] = FindOn(s, d, x)
-LatestOK(s, r) == \A d \in DAGsOf(r) : r.ans[d].latest = LatestOn(s, d, r.todayOnly)
-RecentOK(s, r) == \A d \in DAGsOf(r) : /\ r.ans[d].recent1 = RecentOn(s, d, 1)
-                                        /\ r.ans[d].recent2 = RecentOn(s, d, 2)
-                                        /\ r.ans[d].recent9 = RecentOn(s, d, 9)
+DAGsOf(a) == DOMAIN a
+FindOK(s, a)      == \A d \in DAGsOf(a) : \A x \in DOMAIN a[d].find : a[d].find[x] = FindOn(s, d, x)
+LatestOK(s, a, t) == \A d \in DAGsOf(a) : a[d].latest = LatestOn(s, d, t)
+RecentOK(s, a)    == \A d \in DAGsOf(a) : /\ a[d].recent1 = RecentOn(s, d, 1)
+                                           /\ a[d].recent2 = RecentOn(s, d, 2)
+                                           /\ a[d].recent9 = RecentOn(s, d, 9)
+AllOK(s, a, t) == FindOK(s, a) /\ LatestOK(s, a, t) /\ RecentOK(s, a)
+\* the store goes on recording after the crash: a fresh process performs r.after on whatever survived and the queries are
+\* asked again (ans2); on the state the survivor stands for, that is History's Step applied to it
+HasAfter(r) == Len(r.after) > 0
+Post(s, r) == Fold(s, r.after, Len(r.after))
 Clauses(r) ==
-  LET C == Candidates(r) IN
-  IF \E s \in C : FindOK(s, r) /\ LatestOK(s, r) /\ RecentOK(s, r) THEN {}
-  ELSE (IF ~\E s \in C : FindOK(s, r) THEN {"C07_LookupWrong"} ELSE {})
-       \cup (IF ~\E s \in C : FindOK(s, r) /\ LatestOK(s, r) THEN {"C07_LatestWrong"} ELSE {})
-       \cup (IF ~\E s \in C : FindOK(s, r) /\ RecentOK(s, r) THEN {"C07_RecentWrong"} ELSE {})
+  LET C == Candidates(r)
+      t == r.todayOnly
+      C1 == {s \in C : AllOK(s, r.ans, t)} IN
+  IF C1 = {}
+    THEN (IF ~\E s \in C : FindOK(s, r.ans) THEN {"C07_LookupWrong"} ELSE {})
+         \cup (IF ~\E s \in C : FindOK(s, r.ans) /\ LatestOK(s, r.ans, t) THEN {"C07_LatestWrong"} ELSE {})
+         \cup (IF ~\E s \in C : FindOK(s, r.ans) /\ RecentOK(s, r.ans) THEN {"C07_RecentWrong"} ELSE {})
+  ELSE IF ~HasAfter(r) \/ \E s \in C1 : AllOK(Post(s, r), r.ans2, t) THEN {}
+  ELSE (IF ~\E s \in C1 : FindOK(Post(s, r), r.ans2) THEN {"C07_LookupWrongAfterRecovery"} ELSE {})
+       \cup (IF ~\E s \in C1 : FindOK(Post(s, r), r.ans2) /\ LatestOK(Post(s, r), r.ans2, t) THEN {"C07_LatestWrongAfterRecovery"} ELSE {})
+       \cup (IF ~\E s \in C1 : FindOK(Post(s, r), r.ans2) /\ RecentOK(Post(s, r), r.ans2) THEN {"C07_RecentWrongAfterRecovery"} ELSE {})
 
 \* discriminating facts for known-findings matching
 InflightOp(r) == IF r.nack < Len(r.ops) /\ r.nack >= r.nprior THEN r.ops[r.nack + 1].op ELSE "none"
@@ -87,7 +101,7 @@ Next == /\ l <= Len(Trace) /\ l' = l + 1
            IF c = {} THEN UNCHANGED bad
            ELSE bad' = bad + 1 /\ PrintT("VERDICT " \o ToJson([line |-> l, viol |-> c, scen |-> R.scen, label |-> R.label, k |-> R.k,
                     sys |-> R.sys, torn |-> R.torn, nack |-> R.nack, inflight |-> InflightOp(R), latestError |-> R.latestError,
-                    recentDuplicate |-> R.recentDup, emptyFile |-> R.emptyFile, files |-> R.files, ans |-> R.ans]))
+                    recentDuplicate |-> R.recentDup, emptyFile |-> R.emptyFile, files |-> R.files, ans |-> R.ans, after |-> R.after, ans2 |-> R.ans2]))
 Spec == Init /\ [][Next]_<<l, bad>>
 Emit == (l = Len(Trace) + 1) => PrintT("CONSUMED " \o ToString(Len(Trace)) \o " bad " \o ToString(bad))
 =============================================================================
